@@ -215,6 +215,11 @@ def _sub(snap, n, nb):
     return s
 
 
+def join_ap(o):
+    """Index of the atom used as attachment point when `o` is the first operand of a join: the last end atom."""
+    return max(i for i in range(2, o.n_atoms) if o.n_bonds_with_atom(i) == 1)
+
+
 def compare_copy(src, dst, route):
     """Every observable field the two kinds have in common must be equal (parents/indices re-targeted)."""
     a, b = snapshot(src), snapshot(dst)
@@ -222,6 +227,22 @@ def compare_copy(src, dst, route):
     if route == "concat":
         n, nb = len(a["atoms"]), len(a.get("bonds", []))
         b = _sub(b, n, nb)
+        skip |= {"name", "charge", "mult", "attrib"}
+    if route == "join":
+        # the source without its attachment point (index 2) is the first part of the product, moved rigidly
+        ap = join_ap(src)
+        a = dict(a)
+        a["atoms"] = [t for k, t in enumerate(a["atoms"]) if k != ap]
+        a["bonds"] = [(i1 - (i1 > ap), i2 - (i2 > ap)) + t[2:] for (i1, i2, *rest) in a["bonds"]
+                      for t in [(i1, i2, *rest)] if ap not in (i1, i2)]
+        for f in ("coords", "charges"):
+            if f in a:
+                a[f] = [x for k, x in enumerate(a[f]) if k != ap]
+        n, nb = len(a["atoms"]), len(a["bonds"])
+        b = _sub(b, n, nb)
+        for s_ in (a, b):
+            c0 = np.array(s_["coords"][0])
+            s_["coords"] = np.round(np.array(s_["coords"]) - c0, 5).tolist()
         skip |= {"name", "charge", "mult", "attrib"}
     if route == "ensemble_from":
         for f in ("coords", "charges"):
@@ -288,6 +309,9 @@ class MolHeapAdapter:
                     dst = getattr(ml, to)(src, **kw)
                 elif r == "concat":
                     dst = getattr(ml, to).concatenate(src, make(to))
+                elif r == "join":
+                    # an end atom of either fragment (one bond, not one of the first two atoms) serves as attachment point
+                    dst = getattr(ml, to).join(src, make(to), join_ap(src), 2)
                 elif r == "ensemble_from":
                     dst = ml.ConformerEnsemble([src])     # the constructor form that copies geometry and charges
                 else:
